@@ -39,7 +39,7 @@ def body(c):
         raise vlib.Inconclusive("AssignEarly=TRUE no longer violates Unique in the model")
     # 2. generated behaviours, replayed with gates
     total, keys, nconf, nrest = 0, set(), 0, 0
-    plans = [("bw2", 2, 10 if q else 12, 1500 if q else 12000), ("bw1", 1, 9 if q else 11, 1500 if q else 12000)]
+    plans = [("bw2", 2, 10 if q else 12, 1200 if q else 12000), ("bw1", 1, 9 if q else 11, 1200 if q else 12000)]
     for name, bw, hl, cap in plans:
         cases = L.gen(c, "SequenceGen", "%s-len%d" % (name, hl),
                       L.K(Objs=[1, 2], BW=bw, MaxStored=1000, MaxVer=1000, MaxRestarts=1, MaxQueued=0, AssignEarly=False, HistLen=hl, MinConflicts=0, MinQueued=0),
